@@ -228,6 +228,7 @@ def run_property(pid, tier, seed, only_units=None, quiet=False):
                'verifier': r.backend, 'verifier_cmds': r.cmds,
                'verifier_output': os.path.join(D.BUILD, u.name, r.vname + '.cbmc.json'),
                'witness': f.get('witness'), 'repo_rev': repo_rev()}
+        os.makedirs(REPLAYS, exist_ok=True)     # (a concurrent clean-up may have removed the directory)
         with open(rp, 'w') as fh:
             json.dump(doc, fh, indent=1, default=str)
         rr = native_replay(u, rp)
